@@ -39,7 +39,7 @@ Observation:
  D = { 'kind': struct|enum|alias|const|helper, 'name': as declared (back-ticks removed), 'escaped': bool,
        'ident_ok': the name is a plain identifier, 'generics': [str], 'docs': [str], 'members': [M],
        'variants': [V], 'tag_keys': [str], 'content_keys': [str], 'parent': None, 'type': alias target /
-       const type (TS alias: without ` | undefined`, see 'optional'), 'type_raw', 'value': const value text,
+       const type (TS alias: without ` | null` / ` | undefined`, see 'optional', 'optional_detail'), 'type_raw', 'value': const value text,
        'span': (first line, last line) incl. docs, annotations and generated helper code,
        + per language: algebraic, form, annotations, redacted, inline (Kotlin value class), conformances,
          generic_constraints, indirect, coding_keys, init_params, init_assignments, decode_cases,
@@ -694,12 +694,14 @@ def skip_trivia(ctx, ln, seen_def):
 # ------------------------------------------------------------------------------------------------
 # TypeScript
 #   struct  : export interface N<G> {  / \t[readonly ]key[?]: T[ | null];  / }
-#   alias   : export type N<G> = T[ | undefined];
+#   alias   : export type N<G> = T[[ | null] | undefined];      (` | null`: Option<Option<T>>)
 #   enum    : export enum N {  \tV = "w",  }            (unit)
-#             export type N<G> = \n\t| { tag: "w", content?: undefined } ...;   (algebraic, struct variants inlined)
+#             export type N<G> = \n\t| { tag: "w", content?: undefined } ...;   (algebraic, struct variants inlined;
+#                                  newtype variant: { tag: "w", content[?]: T[ | null] })
 #   const   : export const N: T = v;
 #   helper  : export const ReviverFunc / ReplacerFunc = ... };
-#   member.optional_detail = {'question', 'null_union'}; optional = question
+#   member.optional_detail = {'question', 'null_union'}; optional = question; newtype variant: the same;
+#   alias.optional_detail = {'undefined', 'null_union'}; 'type' is the text without these markers, 'type_raw' as written
 # ------------------------------------------------------------------------------------------------
 TS_MEMBER = re.compile(r'^\t(readonly )?(' + STR + r'|[^"]*?)(\?)?: (.*);$')
 TS_IFACE = re.compile(r'^export interface ([^\s<{]+)(<.*>)? \{$')
@@ -866,7 +868,11 @@ def ex_typescript(ctx):
                 ty_raw = rhs[:-1]
                 opt = ty_raw.endswith(' | undefined')
                 ty = ty_raw[:-len(' | undefined')] if opt else ty_raw
-                d = new_def('alias', name, ln.no, generics=gens, docs=docs, type=ty, type_raw=ty_raw, optional=opt)
+                # Option<Option<T>>: `T | null | undefined` (written in front of ` | undefined`)
+                null_union = ty.endswith(' | null')
+                ty = ty[:-len(' | null')] if null_union else ty
+                d = new_def('alias', name, ln.no, generics=gens, docs=docs, type=ty, type_raw=ty_raw, optional=opt,
+                            optional_detail={'undefined': opt, 'null_union': null_union})
                 span_of(d, dstart)
                 ctx.defs.append(d)
                 ctx.add_refs(d, 'alias', ty, gens)
@@ -893,11 +899,15 @@ def ex_typescript(ctx):
                     vdocs, vstart = ctx.take_docs()
                     c2 = l2.code
                     w = lit_value(c2[mv.start(2):mv.end(2)])
-                    ty = c2[mv.start(5):mv.end(5)]
+                    ty_raw = c2[mv.start(5):mv.end(5)]
                     q = bool(mv.group(4))
-                    unit = q and ty == 'undefined'
+                    # Option<Option<T>>: `content?: T | null`
+                    null_union = ty_raw.endswith(' | null')
+                    ty = ty_raw[:-len(' | null')] if null_union else ty_raw
+                    unit = q and ty_raw == 'undefined'
                     v = new_variant(w, l2.no, wire_name=w, wire_names=[w], docs=vdocs, payload='unit' if unit else 'newtype',
-                                    type=None if unit else ty, type_raw=None if unit else ty, optional=q,
+                                    type=None if unit else ty, type_raw=None if unit else ty_raw, optional=q,
+                                    optional_detail={'question': q, 'null_union': null_union},
                                     content_key=c2[mv.start(3):mv.end(3)])
                     d['variants'].append(v)
                     d['tag_keys'].append(c2[mv.start(1):mv.end(1)])
